@@ -160,3 +160,38 @@ YK_HARNESS H_seq_remove_get() {
     YK_ASSERT(g_rc[0] == status::OK || g_rc[0] == status::WARN_NOT_EXIST);
     YK_REACH();
 }
+
+// get(k0) pre-empted, put(k1) (upsert or unique insert, new 1-byte value) runs completely inside: C01 + C15 (a reader sees the
+// complete old or the complete new value, never a mixture, never a freed block)
+namespace {
+inline void i_get_put() {
+    setup();
+    int f0 = ref_find(g_st, g_ks[0], g_kl[0]), f1 = ref_find(g_st, g_ks[1], g_kl[1]);
+    yk_intruder(&T_put1);
+    T_get0();
+    yk_intruder(nullptr);
+    if (yk_intruder_state() != 2) yk_stop();
+    node_version64_body v = g_st.node->get_version();
+    YK_ASSERT(!v.get_locked() && !v.get_inserting_deleting() && !v.get_splitting());
+    YK_ASSERT(ri_border(g_st.node, true, nullptr));
+    bool rejected = f1 >= 0 && g_unique[1];
+    YK_ASSERT(g_rc[1] == (rejected ? status::WARN_UNIQUE_RESTRICTION : status::OK));
+    bool hit_pre = f0 >= 0;
+    bool hit_post = f0 >= 0 || (same_key() && !rejected);
+    bool got = g_rc[0] == status::OK;
+    YK_ASSERT(g_rc[0] == status::OK || g_rc[0] == status::WARN_NOT_EXIST);
+    YK_ASSERT(got == hit_pre || got == hit_post);
+    if (got) {
+        YK_ASSERT(g_out[0].first != nullptr && g_out[0].second == 1);
+        bool is_old = f0 >= 0 && g_out[0].first == static_cast<char*>(value::get_body(g_st.e[f0].val));
+        bool is_new = same_key() && !rejected && g_out[0].first == g_created[1];
+        YK_ASSERT(is_old || is_new);                               // one complete stored (pointer, length) pair
+        if (is_old) YK_ASSERT((unsigned char) *g_out[0].first == g_st.e[f0].vbyte); // the old block is still intact at response time
+        if (is_new) YK_ASSERT(*g_out[0].first == g_nv[1]);
+        if (is_new) YK_REACH();
+        if (is_old && same_key() && !rejected) YK_REACH();
+    }
+    YK_REACH();
+}
+} // namespace
+YK_HARNESS H_i_get_put_a0() { i_get_put(); }
